@@ -186,7 +186,7 @@ def rows_match(got, want, per_process):
     return not remaining
 
 
-def build_world(ctx, k, nsock):
+def build_world(ctx, k, nsock, kernel_owned=False, decoy_file=False):
     socks = []
     for i in range(nsock):
         if i == 0:
@@ -213,24 +213,31 @@ def build_world(ctx, k, nsock):
             if tg == "file":
                 # an ordinary file -- possibly one whose NAME contains the text of a socket link ("socket:[<inode of socket 0>]"): holding
                 # it does not make the process a holder of that socket
-                decoy = pid == 10 and fd == 4 and ctx.flag("file_named_like_a_socket_link")
+                decoy = pid == 10 and fd == 4 and decoy_file
                 k.links[f"/proc/{pid}/fd/{fd}"] = f"/data/socket:[{socks[0]['inode']}]" if decoy else "/data/file"
             else:
                 k.links[f"/proc/{pid}/fd/{fd}"] = f"socket:[{socks[tg]['inode']}]"
                 holders[(pid, fd)] = socks[tg]["inode"]
     k.stats["/data/file"] = simk.StatResult()
     k.dirs["/proc"] = ["10", "11", "self", "net", "stat"]
+    if kernel_owned:
+        # sockets the kernel itself owns (TIME_WAIT, orphaned FIN_WAIT ...) are all printed with inode 0: distinct sockets, no holder
+        socks.append(dict(table="tcp", inode=0, state=6, lport=22, rport=22, utype=1, path=""))
+        socks.append(dict(table="tcp", inode=0, state=6, lport=65535, rport=22, utype=1, path=""))
     render_tables(k, socks)
     return socks, holders
 
 
-@harness("C11.table", quick=[dict(nsock=2)], thorough=[dict(nsock=2), dict(nsock=3)])
-def table(ctx, nsock):
+@harness("C11.table", quick=[dict(nsock=2), dict(nsock=1, v6=False), dict(nsock=1, kernel_owned=True), dict(nsock=1, decoy_file=True)],
+         thorough=[dict(nsock=2), dict(nsock=3), dict(nsock=2, v6=False), dict(nsock=2, kernel_owned=True), dict(nsock=2, decoy_file=True)])
+def table(ctx, nsock, v6=True, kernel_owned=False, decoy_file=False):
+    """v6: what supports_ipv6() answers; kernel_owned: two further inode-0 sockets; decoy_file: a regular file named like a socket link"""
     k = simk.Kernel(ctx)
     simk.system_files(k)
-    socks, holders = build_world(ctx, k, nsock)
+    socks, holders = build_world(ctx, k, nsock, kernel_owned, decoy_file)
     kind = ctx.choice("kind", sorted(KIND))
-    with k.installed(extra=[(_common, "supports_ipv6", lambda: True)]):
+    # whether a ::1 socket can be bound (supports_ipv6()) says nothing about what /proc/net/tcp6 lists: the rows are the same either way
+    with k.installed(extra=[(_common, "supports_ipv6", lambda: v6), (_pslinux, "supports_ipv6", lambda: v6)]):
         got = ctx.guard("rows-exact", psutil.net_connections, kind)
         per = ctx.guard("per-process-rows", psutil.Process(11).net_connections, kind)
     ctx.prove(rows_match(got, expected_rows(socks, holders, kind), False), "rows-exact", detail=f"kind={kind} got={sorted(map(str, got))}")
